@@ -21,6 +21,11 @@ Proof.
   repeat split; vm_compute; reflexivity.
 Qed.
 
+(* The float witnesses below share one mechanism: compatible() validates only the two end points of the first type,
+   but the tolerance max(|x| * relative_resolution, absolute_resolution) of the second type shrinks towards zero.
+   The positive theorem (Properties.v, C03_compat_sound, guard finding_free) therefore excludes a float target whose
+   tolerance is relied upon on the zero side of an end point; "relative_resolution <= 1" is NOT a sufficient guard. *)
+
 (* FloatRange(-10, 20) against FloatRange(5, 20, relative_resolution=2): only the end points are validated; -10 is
    within the (huge) tolerance of the second type, -1 is not *)
 Theorem C03_refuted_sound_float_endpoints_only :
@@ -28,5 +33,30 @@ Theorem C03_refuted_sound_float_endpoints_only :
 Proof.
   exists (XFloat (fmk (-10) 0) (fmk 20 0) fzero rel0 [] fmt0), (XFloat (fmk 5 0) (fmk 20 0) fzero (fmk 2 0) [] fmt0),
          (PFloat (fmk (-1) 0)).
+  repeat split; vm_compute; reflexivity.
+Qed.
+
+(* relative_resolution = 1: FloatRange(-1, 5) against FloatRange(2^-60, 5, relative_resolution=1): 2^-60 - 1 rounds to -1,
+   so the end point -1 passes; -2^-61 has tolerance 2^-61 only and is rejected (on the real code the same with
+   FloatRange(1e-17, 5, relative_resolution=1) and the value -1e-18) *)
+Theorem C03_refuted_sound_float_relres_one :
+  exists a b v, compat a b = Ok tt /\ in_setb (erase a) v = true /\ dt_validate (erase b) v PNone = Err ERange /\
+                (match b with XFloat _ _ _ r _ _ => feq r (fmk 1 0) = true | _ => False end).
+Proof.
+  exists (XFloat (fmk (-1) 0) (fmk 5 0) fzero rel0 [] fmt0), (XFloat (fmk 1 (-60)) (fmk 5 0) fzero (fmk 1 0) [] fmt0),
+         (PFloat (fmk (-1) (-61))).
+  repeat split; vm_compute; reflexivity.
+Qed.
+
+(* relative_resolution just below 1 (1 - 2^-53), one unit in the last place: FloatRange(-1, 5) against
+   FloatRange(-2^-54, 5, relative_resolution=1-2^-53) passes (the sum for -1 is a tie that rounds to -1), the value
+   -(1/2 + 2^-53) of the first type is rejected by the second (reproduced on the real code) *)
+Theorem C03_refuted_sound_float_relres_below_one :
+  exists a b v, compat a b = Ok tt /\ in_setb (erase a) v = true /\ dt_validate (erase b) v PNone = Err ERange /\
+                (match b with XFloat _ _ _ r _ _ => flt r (fmk 1 0) = true | _ => False end).
+Proof.
+  exists (XFloat (fmk (-1) 0) (fmk 5 0) fzero rel0 [] fmt0),
+         (XFloat (fmk (-1) (-54)) (fmk 5 0) fzero (fmk 9007199254740991 (-53)) [] fmt0),
+         (PFloat (fmk (-4503599627370497) (-53))).
   repeat split; vm_compute; reflexivity.
 Qed.
